@@ -45,6 +45,13 @@ Tie to /repo, every run:
      all-local build of *that* round); a failure of a later round is re-run as a history of that round alone in a fresh process: what it also
      shows alone keeps its key, the rest is `history:stale-export:<what changed>`. Lean `Disk`, `Round`, `runRounds` (`c13.rounds`, compared
      with the registry of the real loader round by round); theorems `round_history_free`, `runRounds_history_free`, `reexport_registered`.
+  K7 dependants spread over several IDL files (`gen_split_case`, `SPLIT_LAYOUTS`): the `@extern` and `@import` directives of the root file
+     interleaved in both orders, the external types used in the root file and / or in imported files (also two levels down), the `@extern`
+     directives standing in the root file or in an imported one; the all-local reference has an `@import` of an IDL file with the same
+     declarations at the place of every `@extern`. Directives are processed in source order, and an imported file is read against what
+     was registered before its `@import`: `c05.front` (Lean `doLoads` / `parseOne`, theorems `parseOne_finish_order`,
+     `front_registry_is_regUpTo` of C16) on the files as written vs whether the real parser accepts the dependant; layouts whose order is
+     wrong (the imported file uses a type that is pulled in only after it) have to be refused in both builds.
   S  specification on the implementation's observations: every `@extern` directive loaded the export, not a decoy
      (`extern:wrong-file:<form>`); every exported declaration is registered under its qualified name
      by the real loader (`key:<Kind>`), `c13.spec` compares every applicable read through the really loaded type with the read
@@ -60,6 +67,7 @@ import re
 from pathlib import Path
 
 import common
+import front
 import genrun_f as genrun
 
 LEAN_MODULE = "PydjinniModel.Props.C13"
@@ -752,6 +760,116 @@ def gen_alphabet_case(r: random.Random, i: int) -> dict:
 
 
 # ---------------------------------------------------------------------------------------------------------
+# dependants spread over several IDL files: `@extern` and `@import` directives interleaved
+# ---------------------------------------------------------------------------------------------------------
+
+# The directives at the head of a file are processed in source order; an imported file is parsed (and its references are resolved)
+# at its `@import`, against what was registered before: built-in types, earlier `@import`s, earlier `@extern`s — of the importing
+# file and of the files above it. A layout says which directives the root file has in which order, which file holds the `@extern`s and
+# which files use the external types. `E` = the `@extern` directives (`E1` / `E2`: the first / the other exported files when there are
+# several), `I(x)` = `@import` of a file with content `x`: `u` uses the external types, `p` is plain (uses none), `E u` has the
+# `@extern`s itself, `I(u)` imports a file that uses them. `ok`: does the order allow every file to see what it uses?
+SPLIT_LAYOUTS = [
+    ("E,I(u)", True), ("I(p),E", True), ("I(E u)", True), ("E1,I(u1),E2,I(u)", True), ("E,I(I(u))", True), ("I(p),E,I(u)", True), ("E,I(u),I(u)", True),
+    ("I(u),E", False), ("E1,I(u),E2", False),
+]
+
+
+def _blocks(text: str, suffix: str) -> list[tuple[str, str]]:
+    """the declarations of a dependant text, each renamed `<name><suffix>`: [(name, text)]"""
+    out = []
+    for b in re.split(r"(?m)^(?=\w+ = )", text):
+        if b.strip():
+            name = b.split(" = ", 1)[0]
+            out.append((name + suffix, name + suffix + b[len(name):]))
+    return out
+
+
+def gen_split_case(r: random.Random, i: int) -> dict:
+    """a closed round trip whose dependant is spread over a root file and one to three imported files"""
+    layout, ok = SPLIT_LAYOUTS[i % len(SPLIT_LAYOUTS)]
+    two = "E1" in layout
+    mode = "per_type" if two or (i // len(SPLIT_LAYOUTS)) % 2 == 0 else "out_file"
+    k = 2 if two else r.choice([1, 2])
+    slots = [SAFE[(i + i // len(SPLIT_LAYOUTS)) % len(SAFE)]] + r.sample([x for x in SAFE if x != SAFE[(i + i // len(SPLIT_LAYOUTS)) % len(SAFE)]], k=k - 1)
+    slots.sort(key=SAFE.index)
+    cfg_name, cfg = CONFIGS[(i + i // 3) % len(CONFIGS)]
+    # (names of the slot / lexical families are accepted as type names under every configuration of the pool, and so are these namespaces)
+    lexical = (i // 2) % 2 == 1
+    names = draw_names(r, slots, "lexical" if lexical else "slots", allow_same_name=False, namespaces=LEX_NAMESPACES if lexical else SEQ_NAMESPACES, p_ns=0.4)
+    decls = decl_refs(slots, names)
+    # the exported files by the names the yaml target gives them, and the IDL file of the all-local build that stands for each
+    if mode == "out_file":
+        yaml_names, loc = ["all.yaml"], {"all.yaml": exporter_text(slots, names)}
+        of_file = {"all.yaml": decls}
+    else:
+        yaml_names = sorted(names[x][0] + ".yaml" for x in slots)
+        loc = {names[x][0] + ".yaml": exporter_text([x], names) for x in slots}
+        of_file = {names[d["slot"]][0] + ".yaml": [d] for d in decls}
+    first, others = yaml_names[:1], yaml_names[1:]
+    uses = lambda ds, sfx: _blocks(dependant(r, ds, rot=i, light=True), sfx)
+    plain = lambda n: [(f"lp{n}", f"lp{n} = record {{ a: i32; b: list<string>; }}\n")]
+    all_u, first_u = uses(decls, "a"), uses([d for n in first for d in of_file[n]], "f")
+    root_u = uses(decls, "r")
+
+    def ref(blocks):       # a record of the root file that refers to a record declared in an imported file
+        rec = next((n for n, _ in blocks if n.startswith(("dr", "lp"))), None)
+        return [("dx_" + rec, f"dx_{rec} = record {{ f: {rec}; g: list<{rec}>; }}\n")] if rec else []
+    E = lambda ns: [("extern", n) for n in ns]
+    I = lambda f: [("import", f)]
+    files = {}      # file -> (directives, blocks)
+    if layout == "E,I(u)":
+        files = {"part1.djinni": ([], all_u[:2]), "main.djinni": (E(yaml_names) + I("part1.djinni"), root_u[2:] + ref(all_u[:2]))}
+    elif layout == "I(p),E":
+        files = {"part1.djinni": ([], plain(1)), "main.djinni": (I("part1.djinni") + E(yaml_names), root_u + ref(plain(1)))}
+    elif layout == "I(E u)":
+        files = {"part1.djinni": (E(yaml_names), all_u[:1]), "main.djinni": (I("part1.djinni"), root_u[1:] + ref(all_u[:1]))}
+    elif layout == "E1,I(u1),E2,I(u)":
+        files = {"part1.djinni": ([], first_u[:2]), "part2.djinni": ([], all_u[:2] + ref(first_u[:2])),
+                 "main.djinni": (E(first) + I("part1.djinni") + E(others) + I("part2.djinni"), root_u[2:])}
+    elif layout == "E,I(I(u))":
+        files = {"part2.djinni": ([], all_u[:2]), "part1.djinni": (I("part2.djinni"), plain(1) + ref(all_u[:2])),
+                 "main.djinni": (E(yaml_names) + I("part1.djinni"), root_u[2:] + ref(plain(1)))}
+    elif layout == "I(p),E,I(u)":
+        files = {"part1.djinni": ([], plain(1)), "part2.djinni": ([], all_u[:2] + ref(plain(1))),
+                 "main.djinni": (I("part1.djinni") + E(yaml_names) + I("part2.djinni"), root_u[2:])}
+    elif layout == "E,I(u),I(u)":
+        files = {"part1.djinni": ([], all_u[:1]), "part2.djinni": ([], first_u[1:] + ref(all_u[:1])),
+                 "main.djinni": (E(yaml_names) + I("part1.djinni") + I("part2.djinni"), root_u[2:])}
+    elif layout == "I(u),E":
+        files = {"part1.djinni": ([], all_u[:1]), "main.djinni": (I("part1.djinni") + E(yaml_names), root_u[1:])}
+    elif layout == "E1,I(u),E2":
+        files = {"part1.djinni": ([], all_u[:2]), "main.djinni": (E(first) + I("part1.djinni") + E(others), root_u[2:])}
+    else:
+        raise ValueError(layout)
+    return {"exp": exporter_text(slots, names), "dep": "".join(t for _, (_, bs) in sorted(files.items()) for _, t in bs), "config": cfg, "config_name": cfg_name, "mode": mode,
+            "shape": "split", "naming": "split", "slots": slots, "exp_slots": list(slots), "rot": i, "names": {x: list(v) for x, v in names.items()},
+            "yaml_names": yaml_names,
+            "split": {"layout": layout, "order_ok": ok, "local_idl": loc,
+                      "files": {f: {"directives": [list(d) for d in ds], "text": "".join(t for _, t in bs)} for f, (ds, bs) in files.items()}}}
+
+
+def split_files(split: dict, extern: bool) -> dict:
+    """the IDL files of a split dependant: with the `@extern` directives, or — the all-local reference — with an `@import` of an IDL file
+    that declares the same types at the place of every `@extern`"""
+    out = {}
+    for f, d in split["files"].items():
+        head = ""
+        for kind, arg in d["directives"]:
+            if kind == "import":
+                head += f'@import "{arg}"\n'
+            elif extern:
+                head += f'@extern "ext/{arg}"\n'
+            else:
+                head += f'@import "loc/{arg[:-5]}.djinni"\n'
+        out[f] = head + d["text"]
+    if not extern:
+        for n, text in split["local_idl"].items():
+            out[f"loc/{n[:-5]}.djinni"] = text
+    return out
+
+
+# ---------------------------------------------------------------------------------------------------------
 # re-export histories: one process, one directory tree, several rounds of export -> @extern -> generate on the SAME paths
 # ---------------------------------------------------------------------------------------------------------
 
@@ -1039,6 +1157,9 @@ def round_trips(ctx, cases, used, spec, minimise=True, sequences=(), alone=False
         if lay:
             # the all-local reference is built where the dependent program will be built: same root spelling, same working directory
             jobs.append({"files": {"app/main.djinni": c["exp"] + c["dep"]}, "root": "../app/main.djinni", "cwd": "work", "targets": TARGETS, "config": cfg})
+        elif c.get("split"):
+            # the same files, an `@import` of an IDL file with the same declarations at the place of every `@extern`
+            jobs.append({"files": split_files(c["split"], extern=False), "root": "main.djinni", "targets": TARGETS, "config": cfg})
         else:
             jobs.append({"files": {"main.djinni": c["exp"] + c["dep"]}, "root": "main.djinni", "targets": TARGETS, "config": cfg})
         yopt = {"yaml": {"out_file": "all.yaml"}} if c["mode"] == "out_file" else {}
@@ -1055,7 +1176,7 @@ def round_trips(ctx, cases, used, spec, minimise=True, sequences=(), alone=False
     for k, c in enumerate(cases):
         loc, exp = res1[c["_jobs"][0]], res1[c["_jobs"][1]]
         c["local"], c["export"] = loc, exp
-        if not loc["ok"]:
+        if not loc["ok"] and not (c.get("split") and loc["stage"] == "parse"):
             ctx.stat("local_build_fails_" + loc["stage"])
             continue
         if not exp["ok"]:
@@ -1070,7 +1191,17 @@ def round_trips(ctx, cases, used, spec, minimise=True, sequences=(), alone=False
                 ctx.stat("workspace_with_incomplete_decoy")
             ws = workspace(c["layout"], yamls, decoys)
         c["ws"] = ws
-        if ws:
+        if c.get("split"):
+            if sorted(yamls) != sorted(c["yaml_names"]):
+                ctx.stat("split_export_names_not_as_predicted")      # (the files of the dependant name the exported files beforehand)
+                continue
+            files = split_files(c["split"], extern=True)
+            for n, t in yamls.items():
+                files["ext/" + n] = t
+            jobs2.append({"files": files, "root": "main.djinni", "targets": TARGETS, "config": c["config"]})
+            lfiles = {"main.djinni": "".join(f'@extern "ext/{n}"\n' for n in sorted(yamls)), **{"ext/" + n: t for n, t in yamls.items()}}
+            jobs2.append({"files": lfiles, "root": "main.djinni", "targets": [], "config": c["config"], "hook": "props.c13:hook_loader"})
+        elif ws:
             heads = "".join(f'@extern "{ws["literal"](n)}"\n' for n in sorted(yamls))
             files = {**ws["files"], "app/main.djinni": heads + c["dep"]}
             extra = {**ws["job"], "dirs": ws["dirs"]}
@@ -1115,6 +1246,8 @@ def round_trips(ctx, cases, used, spec, minimise=True, sequences=(), alone=False
             inp["history"] = {k_: c["history"][k_] for k_ in ("round", "edit", "form", "share_api", "rounds")}
         if c.get("layout"):
             inp["layout"] = c["layout"]
+        if c.get("split"):
+            inp["split"], inp["yaml_names"] = c["split"], c["yaml_names"]
         # 1. every exported document validates against the published model; per-type files hold one document each
         docs, doc_list = {}, []
         for n in sorted(c["yamls"]):
@@ -1192,11 +1325,39 @@ def round_trips(ctx, cases, used, spec, minimise=True, sequences=(), alone=False
                                     "working_directory": "work", "idl_file": "app/main.djinni", "include_dirs": ws["job"]["generate"]["include_dirs"],
                                     "candidates_in_search_order": ws["slots"][n]})
         # 3. the dependant
-        if not r2["ok"]:
+        sp = c.get("split")
+        if sp:
+            # the directives in source order (Lean `doLoads`) on the files as written vs whether the real parser accepts the dependant
+            ctx.count(key=("split", sp["layout"], c["mode"], c["config_name"]), nontrivial=True, sample={"layout": sp["layout"], "files": {f: d["directives"] for f, d in sp["files"].items()}})
+            ctx.stat("split_" + sp["layout"] + ("_accepted" if r2["ok"] else "_refused"))
+            vfiles = {"/w/" + f: t for f, t in split_files(sp, extern=True).items()}
+            for n in sorted(c["yamls"]):
+                vfiles["/w/ext/" + n] = {"ext": [{"key": ".".join(list(d.get("namespace") or []) + [str(d["name"])]), "prim": str(d.get("primitive")),
+                                                  "arity": len(d.get("params") or []), "pos": [1, 0, 1, 0]} for d in yaml.safe_load_all(c["yamls"][n]) if d is not None]}
+            reqs.append(front.front_request(vfiles, "/w/main.djinni"))
+            metas.append(("split", c, sp["layout"], None, r2))
+        if sp and not c["local"]["ok"]:
+            # the all-local build refuses the order of the directives: so must the build with @extern
+            if r2["ok"]:
+                rep(c, "split:accepted-only-with-extern:" + sp["layout"], "the dependant is refused when the types are declared in imported IDL files at the place of the @extern directives, "
+                    "but accepted with the exported YAML", {"input": inp, "local": c["local"]})
+            elif sp["order_ok"]:
+                ctx.stat("local_build_fails_" + c["local"]["stage"])
+        elif not r2["ok"] and sp:
+            ctx.count(key=("roundtrip", c["shape"], "dependant-fails"), sample=inp)
+            pending.append((c, [], "split:dependant-refused:" + sp["layout"], "a dependant that is spread over several IDL files builds when the types are declared in imported IDL files at the place "
+                            f"of the @extern directives, but is refused with the exported YAML (directives of the root file: {sp['files']['main.djinni']['directives']})",
+                            {"input": inp, "impl": r2, "layout": sp["layout"]}))
+        elif not r2["ok"]:
             ctx.count(key=("roundtrip", c["shape"], "dependant-fails"), sample=inp)
             pending.append((c, [], "roundtrip:dependant-fails:" + r2["stage"] + ":" + r2["cls"], "the dependant builds with local types but not with the exported YAML",
                             {"input": inp, "impl": r2}))
         else:
+            if sp:
+                # the banner of a file generated for a declaration of an *imported* file names that file by its absolute path: modulo the job's directory
+                here = re.compile(re.escape(str(ctx.tmp)) + r"/r\w+/w\d+_j\d+/src/")
+                c["local"]["files"] = {p_: here.sub("<SRC>/", t_) for p_, t_ in c["local"]["files"].items()}
+                r2["files"] = {p_: here.sub("<SRC>/", t_) for p_, t_ in r2["files"].items()}
             fa, fb = canon_files(c["local"]["files"]), canon_files(r2["files"])
             differing = sorted(p for p in fb if fa.get(p) != fb[p])
             ctx.count(key=("roundtrip", c["shape"], c["mode"], c["config_name"], c.get("naming"), tuple(c.get("slots", ()))),
@@ -1273,6 +1434,15 @@ def round_trips(ctx, cases, used, spec, minimise=True, sequences=(), alone=False
             inp["layout"] = c["layout"]
         if c.get("history"):
             inp["history"] = {k_: c["history"][k_] for k_ in ("round", "edit", "form", "share_api", "rounds")}
+        if kind == "split":
+            ctx.count(n=1)
+            mo = front.model_outcome(a)
+            accepted = mo == ("ok",)
+            if accepted != bool(other["ok"]) and not (not other["ok"] and not other["stage"].startswith("parse")):
+                inp.pop("type")
+                breaks.append({"what": "c05.front (the directives of every file in source order) vs whether the parser accepts the dependant that is spread over several files",
+                               "layout": key, "model": list(mo)[:3], "impl": {k_: other.get(k_) for k_ in ("ok", "stage", "cls", "msg")}, "input": {**inp, "split": c["split"]}})
+            continue
         if kind == "locate":
             ctx.count(n=1)
             if a.get("located") != other:
@@ -1369,7 +1539,7 @@ def run(ctx):
     ctx.coverage["rule"] = ("round trips: distinct = (shape, export mode, configuration, naming family, exported slots); histories: distinct = (what changed since the round before, export mode, "
                             "spelling of the @extern literals, one API object / one per step, configuration); workspaces: distinct = (where the export stands, "
                             "export mode, directory decoy, spelling of the include directories); usage sites: distinct = (exported kind, wrapper, "
-                            "position); names: distinct = (declaration kind, export mode, name family, namespaced); function level: one evaluation per exported declaration "
+                            "position); split dependants: distinct = (layout of the directives, export mode, configuration); names: distinct = (declaration kind, export mode, name family, namespaced); function level: one evaluation per exported declaration "
                             "and op (export, load, spec) and one per program for the whole-file load")
     ctx.assumptions += [
         "closed feature set: exporter slots " + ", ".join(SAFE) + " (+ xerr exported but not thrown), 1-4 per program, each slot due every " + str(len(SAFE)) + " cases; "
@@ -1392,6 +1562,9 @@ def run(ctx):
         "alphabet stream: configurations " + ", ".join(n for n, _ in ALPHABETS) + " x names " + ", ".join(LEXICAL) + " x namespaces " + ", ".join(LEX_NAMESPACES) +
         " (60 % of the declarations namespaced), 2-3 exported slots per case, both export modes; java.identifier.type and jni.identifier.class_name are configured alike "
         "(they name the same Java class); `$` cannot reach an exported string (no identifier, package or prefix may contain it)",
+        "split dependants: layouts " + ", ".join(l for l, _ in SPLIT_LAYOUTS) + " (E = @extern directives, I(x) = @import of a file that uses the external types (u), uses none (p), has the "
+        "@extern directives itself (E u), imports such a file (I(u))); one or two exported slots, light dependants; the all-local reference imports one IDL file per exported YAML file at the "
+        "place of its @extern; the last two layouts have the wrong order and must be refused by both builds",
         "re-export histories: two exported slots, light dependants (a record, a +cpp and a +java+objc+cppcli interface over every wrapper), configurations from the four + the three "
         "alphabet configurations, names of the slot / lexical families, 2 rounds (3 in every fourth history); edits " + ", ".join(EDITS) + " in rotation; every round cleans the "
         "output directories it writes (`clean=True`), the dependent program names the exported files by the names the yaml target is known to give them (<name>.yaml / all.yaml); "
@@ -1413,6 +1586,9 @@ def run(ctx):
     for i in range(ctx.n(6, 126)):
         r = random.Random(f"{ctx.seed}/c13/alphabet/{i}")
         cases.append(gen_alphabet_case(r, i))
+    for i in range(ctx.n(len(SPLIT_LAYOUTS), 12 * len(SPLIT_LAYOUTS))):
+        k = i + ctx.seed * len(SPLIT_LAYOUTS)
+        cases.append(gen_split_case(random.Random(f"{ctx.seed}/c13/split/{i}"), k))
     sequences += [gen_sequence(random.Random(f"{ctx.seed}/c13/history/{i}"), i) for i in range(ctx.n(12, 96))]
     breaks = round_trips(ctx, cases, used, spec, sequences=sequences)
     breaks += pattern_correspondence(ctx, spec)
@@ -1455,6 +1631,8 @@ def replay(ctx, body):
             "mode": inp.get("mode", "per_type"), "shape": "replay"}
     if inp.get("layout"):
         case["layout"] = inp["layout"]
+    if inp.get("split"):
+        case["split"], case["yaml_names"], case["shape"] = inp["split"], inp["yaml_names"], "split"
     if inp.get("history"):
         h = inp["history"]
         round_trips(ctx, [], used, spec, sequences=[sequence_of_rounds(h["rounds"], case["mode"], {"seq": 0, "form": h.get("form", "absolute"), "share_api": bool(h.get("share_api"))})])
